@@ -8,8 +8,14 @@ pub mod shared;
 pub mod io;
 #[path = "support/tagser.rs"]
 pub mod tagser;
+#[path = "support/nde.rs"]
+pub mod nde;
 #[path = "support/stubs.rs"]
 pub mod stubs;
 
+#[path = "lib/probes.rs"]
+mod probes;
+#[path = "lib/c01.rs"]
+pub mod c01;
 #[path = "lib/c04.rs"]
 mod c04;
